@@ -17,12 +17,12 @@ use std::collections::BTreeMap;
 
 pub fn phases(tier: Tier) -> Vec<Phase> {
     let mut v = vec![
-        Phase::new("programs: kind-agnostic expressions of <=2 constructors x 27 contexts, all statement orders x 3 namings", json!({"kind":"programs","space":"agnostic","k":2})),
+        Phase::new("programs: kind-agnostic expressions of <=2 constructors x 28 contexts, all statement orders x 3 namings", json!({"kind":"programs","space":"agnostic","k":2})),
         Phase::new("programs: fragments F5 (scoping), F6 (recursion, 2 declarations), F10 (collisions, repeated content tags), F7 (@references), F3 (transfers), all statement orders x 3 namings", json!({"kind":"programs","space":"frags"})),
     ];
     v.push(Phase::new("programs: kind-agnostic expressions of 3 constructors in the never-applied-function context, all statement orders x 3 namings", json!({"kind":"programs","space":"agnostic","k":3,"only_context":26})));
     if tier == Tier::Thorough {
-        v.push(Phase::new("programs: kind-agnostic expressions of 3 constructors x 27 contexts, all statement orders x 3 namings", json!({"kind":"programs","space":"agnostic","k":3})));
+        v.push(Phase::new("programs: kind-agnostic expressions of 3 constructors x 28 contexts, all statement orders x 3 namings", json!({"kind":"programs","space":"agnostic","k":3})));
     }
     v
 }
